@@ -74,7 +74,12 @@ class CostSpec(UserDict):
         best_constr = None
         if key[0] in self.data:
             for constr, cost_fn in self.data[key[0]]:
-                if constr is None or constr(key[1]):
+                if constr is None:
+                    # an unconstrained pattern never overrides (nor conflicts with) a constrained
+                    # match, regardless of the order in which the two were registered
+                    if best_constr is None:
+                        best_match = cost_fn
+                elif constr(key[1]):
                     if best_constr is None:
                         best_match = cost_fn
                         best_constr = constr
